@@ -2049,6 +2049,11 @@ fn check_stash_presence_with_context(ctx: &SanityCheckContext) -> Result<(), San
 fn check_working_tree_cleanliness_with_context(
     ctx: &SanityCheckContext,
 ) -> Result<(), SanityCheckError> {
+    // A bare repository has no index or working tree to be dirty
+    if ctx.is_bare {
+        return Ok(());
+    }
+
     let executor = GitCommandExecutor::new(&ctx.repo_path);
 
     // Check for staged changes
